@@ -75,6 +75,10 @@ func main() {
 		}
 		return
 	}
+	if *dump == "leafterms" {
+		dumpLeafTerms(P)
+		return
+	}
 	if *dump == "fieldwrites" {
 		dumpFieldWrites(P)
 		return
